@@ -72,12 +72,19 @@ and written with a wrapped length (C14 length sweep extended past the 16-bit lim
 `hvcC` / `avcC` readers ignoring their box size, which made opening a 733 KB file with 128 such tracks
 read 74.7 MB — quadratic in the file length (C07 scaling shapes; fixes 66fc781, 3f70689).
 
-What the seeds say about the limits (§5): of the {strengthened} misses, all but three were a *shape that no
+What the seeds say about the limits (§5): of the {strengthened} misses, most were a *shape that no
 baseline / generator contained* (a child order, a box being last in the file, a chain of consistent sizes, a
 NUL at the end of a text, a refusal on a known track or of a track, a traf without a run or with several,
-sums past 2³², an open-ended mdat, a box at a non-zero stream offset, many tracks x many fragments); three
-were an oracle or an exploration order that accepted too much (C16b truncation vs floor; C01c "only
-unknown-track calls are refused"; C03f lookups only in ascending order).  The guard against the first kind
+sums past 2³², an open-ended mdat, a box at a non-zero stream offset, many tracks x many fragments, a
+parameter set of length 0, a uuid box inside a traf, a year text beyond 32 bits).  Nine were not about shapes:
+an oracle that accepted too much or looked only at one side (C16b truncation vs floor; C01c "only
+unknown-track calls are refused"; C13h durations read back only for mdhd; C05g a typed value compared only
+through the library's own two directions, which a consistent change of both keeps in agreement), an
+exploration order (C03f lookups only in ascending order), a build profile that was not run (C08g), an
+attribution rule of the machinery (C08h: a lazily granted multi-GiB request whose fill ran into the watchdog
+was reported by C07 only), and the harness itself being brittle against the change (C15 did not build with a
+`!Sync` reader; C16h panicked inside an unguarded enumeration loop).
+The guard against the first kind
 is the rule "one input per shortcut visible in the code" — which is why the field-substitution
 neighbourhoods (E3) are complemented by enumerated shape families, *structured* multi-field deviations
 (overrun chains, extreme pairs, reduced pairs), duplicate and scaling shapes, why generators list every flag
